@@ -96,8 +96,11 @@ func main() {
 // ---------------------------------------------------------------- snapshot
 
 // what to do with a selector on package os / time
-var osRewrite = map[string]string{ // function → shim method
-	"OpenFile": "OpenFile", "Remove": "Remove", "Rename": "Rename",
+var osRewrite = map[string]string{ // function → shim function/method
+	"OpenFile": "verifFS.OpenFile", "Remove": "verifFS.Remove", "Rename": "verifFS.Rename",
+	"Stat": "verifFS.Stat", "Lstat": "verifFS.Stat", "Truncate": "verifFS.Truncate",
+	// composed from the primitives above in the shim
+	"Create": "verifCreate", "Open": "verifOpen", "ReadFile": "verifReadFile", "WriteFile": "verifWriteFile",
 }
 var osKeep = map[string]bool{ // constants / types / errors that are not operations
 	"O_RDWR": true, "O_APPEND": true, "O_CREATE": true, "O_TRUNC": true, "O_RDONLY": true, "O_WRONLY": true,
@@ -129,6 +132,7 @@ func rewriteSnapshot(src, dst string) string {
 	}
 	counts := map[string]int{}
 	var bad []string
+	replaceWithIdent := map[*ast.SelectorExpr]string{}
 	ast.Inspect(f, func(n ast.Node) bool {
 		switch x := n.(type) {
 		case *ast.StarExpr:
@@ -141,8 +145,13 @@ func rewriteSnapshot(src, dst string) string {
 			if isPkg(x.X, "os") {
 				name := x.Sel.Name
 				if m, ok := osRewrite[name]; ok {
-					x.X = ast.NewIdent("verifFS")
-					x.Sel = ast.NewIdent(m)
+					if recv, meth, isMethod := strings.Cut(m, "."); isMethod {
+						x.X = ast.NewIdent(recv)
+						x.Sel = ast.NewIdent(meth)
+					} else {
+						// a plain shim function: replace the whole selector by an identifier
+						replaceWithIdent[x] = m
+					}
 					counts["os."+name]++
 				} else if !osKeep[name] {
 					bad = append(bad, fset.Position(x.Pos()).String()+": os."+name)
@@ -163,6 +172,23 @@ func rewriteSnapshot(src, dst string) string {
 		}
 		return true
 	})
+	// second pass: selectors that become plain identifiers (only call targets occur in practice)
+	if len(replaceWithIdent) > 0 {
+		ast.Inspect(f, func(n ast.Node) bool {
+			if c, ok := n.(*ast.CallExpr); ok {
+				if sel, ok := c.Fun.(*ast.SelectorExpr); ok {
+					if id, ok := replaceWithIdent[sel]; ok {
+						c.Fun = ast.NewIdent(id)
+						delete(replaceWithIdent, sel)
+					}
+				}
+			}
+			return true
+		})
+		for sel := range replaceWithIdent {
+			bad = append(bad, fset.Position(sel.Pos()).String()+": os."+sel.Sel.Name+" used other than as a call")
+		}
+	}
 	if len(bad) > 0 {
 		die("unknown file-system/time calls in snapshot.go (teach overlaygen about them):\n  %s", strings.Join(bad, "\n  "))
 	}
@@ -209,6 +235,8 @@ type VerifFileImpl interface {
 	Sync() error
 	Close() error
 	Stat() (os.FileInfo, error)
+	Truncate(size int64) error
+	Name() string
 }
 
 // VerifFile replaces *os.File. Like *os.File its methods are nil-safe (they
@@ -251,12 +279,65 @@ func (f *VerifFile) Stat() (os.FileInfo, error) {
 	}
 	return f.Impl.Stat()
 }
+func (f *VerifFile) Truncate(size int64) error {
+	if f == nil {
+		return os.ErrInvalid
+	}
+	return f.Impl.Truncate(size)
+}
+func (f *VerifFile) WriteString(s string) (int, error) { return f.Write([]byte(s)) }
+func (f *VerifFile) Name() string {
+	if f == nil {
+		return ""
+	}
+	return f.Impl.Name()
+}
 
 // VerifFS is the file-system surface snapshot.go uses.
 type VerifFS interface {
 	OpenFile(name string, flag int, perm os.FileMode) (*VerifFile, error)
 	Remove(name string) error
 	Rename(oldpath, newpath string) error
+	Stat(name string) (os.FileInfo, error)
+	Truncate(name string, size int64) error
+}
+
+func verifCreate(name string) (*VerifFile, error) {
+	return verifFS.OpenFile(name, os.O_RDWR|os.O_CREATE|os.O_TRUNC, 0666)
+}
+
+func verifOpen(name string) (*VerifFile, error) { return verifFS.OpenFile(name, os.O_RDONLY, 0) }
+
+func verifReadFile(name string) ([]byte, error) {
+	f, err := verifOpen(name)
+	if err != nil {
+		return nil, err
+	}
+	defer f.Close()
+	var out []byte
+	buf := make([]byte, 4096)
+	for {
+		n, err := f.Read(buf)
+		out = append(out, buf[:n]...)
+		if err != nil {
+			if err.Error() == "EOF" {
+				return out, nil
+			}
+			return out, err
+		}
+	}
+}
+
+func verifWriteFile(name string, data []byte, perm os.FileMode) error {
+	f, err := verifFS.OpenFile(name, os.O_WRONLY|os.O_CREATE|os.O_TRUNC, perm)
+	if err != nil {
+		return err
+	}
+	_, err = f.Write(data)
+	if cerr := f.Close(); err == nil {
+		err = cerr
+	}
+	return err
 }
 
 type verifRealFS struct{}
@@ -268,8 +349,10 @@ func (verifRealFS) OpenFile(name string, flag int, perm os.FileMode) (*VerifFile
 	}
 	return &VerifFile{Impl: f}, nil
 }
-func (verifRealFS) Remove(name string) error         { return os.Remove(name) }
-func (verifRealFS) Rename(o, n string) error         { return os.Rename(o, n) }
+func (verifRealFS) Remove(name string) error                { return os.Remove(name) }
+func (verifRealFS) Rename(o, n string) error                { return os.Rename(o, n) }
+func (verifRealFS) Stat(name string) (os.FileInfo, error)   { return os.Stat(name) }
+func (verifRealFS) Truncate(name string, size int64) error  { return os.Truncate(name, size) }
 
 var verifFS VerifFS = verifRealFS{}
 
